@@ -88,3 +88,9 @@ func VerifC03_FinalizingReleasedOnlyByReleasingUpdate() {
 		}
 	}
 }
+
+// VerifC03_InitiatorSignalsAtManager: the inductive step of the C03 invariant through the REAL
+// manager handlers (transport completion with and without error, every incoming response kind,
+// block reports, transfer initiated): Completed only after both the own transport finished
+// without error and the responder's final Complete (same body as VerifC01_InitiatorSignals).
+func VerifC03_InitiatorSignalsAtManager() { VerifC01_InitiatorSignals() }
